@@ -147,8 +147,14 @@ def r3_counter_sites(ctx):
             if kind != "aug" or not fi.module.name.startswith(("cascade.scheduler", "cascade.controller")):
                 continue
             n += 1
-            if fi.qual in covered:
-                ctx.ok("C03.R3", loc(fi, node), f"counter update {attr} {det} in a function with a pairing rule")
+            helper_of = None
+            if fi.qual not in covered and fi.name.startswith("_"):
+                from .common import callers_of
+                cs = {c[0].qual for c in callers_of(ctx.repo, fi.qual)}
+                if cs and cs <= covered:
+                    helper_of = sorted(cs)
+            if fi.qual in covered or helper_of:
+                ctx.ok("C03.R3", loc(fi, node), f"counter update {attr} {det} in a function with a pairing rule" + (f" (private helper of {helper_of})" if helper_of else ""))
             else:
                 ctx.undecided("C03.R3", loc(fi, node), f"new counter update site {attr} in {fi.qual}: no pairing rule covers it")
     ctx.floor("C03.R3.sites", n, 8)
